@@ -19,6 +19,7 @@ const (
 	ptRoundTrip
 	ptResMod
 	ptWriting
+	ptSecondHead // the head of a second request is partly buffered, the rest has not arrived
 	ptNever
 )
 
@@ -89,8 +90,11 @@ func (c *hookConn) Write(p []byte) (int, error) {
 // VerifC07Handler: one connection, one or two exchanges, shutdown requested at
 // each of the six progress points of the first exchange (or never).
 func VerifC07Handler() {
-	at := vf.Choice("shutdown-at", 7)
+	at := vf.Choice("shutdown-at", 8)
 	two := vf.Choice("second-request-pipelined", 2) == 1
+	if at == ptSecondHead {
+		two = false
+	}
 	p := NewProxy()
 	s := &shutter{p: p, at: at}
 	r1 := reqSpec{method: "GET", path: "/one", hval: "a"}.wire()
@@ -101,6 +105,11 @@ func VerifC07Handler() {
 	case at == ptMidHead:
 		segs = [][]byte{r1[:10], r1[10:]}
 		readPt = []int{ptNever, ptMidHead}
+	case at == ptSecondHead:
+		// the first read brings request one and ten bytes of request two; the proxy's next
+		// read (for the rest of that head) finds the client silent
+		segs = [][]byte{append(append([]byte(nil), r1...), r2[:10]...)}
+		readPt = []int{ptNever, ptSecondHead}
 	default:
 		segs = [][]byte{r1}
 		readPt = []int{ptIdle}
@@ -134,6 +143,9 @@ func VerifC07Handler() {
 	}
 	vf.Quiesce()
 
+	if at == ptSecondHead && s.fired {
+		vf.Reach("second-head")
+	}
 	vf.Assert(s.fired, "shutdown-was-requested")
 	vf.Assert(s.returned, "shutdown-returns")
 	vf.Assert(done, "handler-finished-when-shutdown-returned")
